@@ -64,6 +64,8 @@ package bip39
 //@   requires validLen(len(entropy)) && wordLen == 3*len(entropy)/4
 //@   split len(entropy) in {16,20,24,28,32} at entry
 //@   ghost ws SSeq = seq(wordList)
+//@   ghost eb Bytes = old(bytes(entropy))
+//@   ensures [C05,C06,C07] input: eb == old(bytes(entropy))
 //@   ensures [C01,C02,C05,C06,C07,C09,C13] enc: result == join(ws, sepOf(lg)) && slen(ws) == wordLen
 //@   ensures [C01,C02,C05,C06,C07] words: implies(supported(lg), forall(j, 0, wordLen, sat(ws, j) == lst(lg, digit(V(old(bytes(entropy))), wordLen-1-j))))
 //@   ensures [C09] nonempty: forall(j, 0, wordLen, sat(ws, j) != "")
@@ -219,7 +221,7 @@ package bip39
 //@   let enough = p0 + need <= ravail(cryptoRander)
 //@   assigns RPos[cryptoRander]
 //@   ghost ws SSeq = fromEntropy_ws
-//@   ghost ent Bytes = bytes(entropy)
+//@   ghost ent Bytes = fromEntropy_eb
 //@   ensures [C09] reject: implies(!validCount(length), result == "" && is(err, ErrWordLen) && pos(cryptoRander) == p0)
 //@   ensures [C06] short: implies(validCount(length) && !enough, result == "" && err != nil)
 //@   ensures [C09,C02,C06] success: implies(validCount(length) && enough, err == nil)
